@@ -24,7 +24,7 @@ def gen(rng):
         callers.append({
             'start': rng.choice([0, 0, 0, U, D, D + U, 2 * D]),
             'dur': rng.choice([0, 0, D, D, 2 * D, D / 2]),
-            'out': rng.choice(['ret', 'ret', 'raise']),
+            'out': rng.choice(['ret', 'ret', 'ret', 'ret', 'raise', 'raise', 'cancel']),
             'aw': rng.choice(['coro', 'coro', 'future', 'task']),
             'via': rng.choice(['ensure', 'ensure', 'ensure', 'threadsafe']),
             'n': rng.choice([1, 1, 2]),
@@ -121,6 +121,11 @@ class EnsureHarness:
                         if not is_future:
                             emit('aw_done', aid, 'raise')
                         raise HarnessError(aid)
+                    if c['out'] == 'cancel':
+                        # the awaitable's own outcome is a cancellation (somebody cancelled what it was waiting for)
+                        if not is_future:
+                            emit('aw_done', aid, 'cancel')
+                        raise aio.CancelledError(aid)
                     if not is_future:
                         emit('aw_done', aid, 'ret')
                     return ('r', aid)
@@ -177,6 +182,8 @@ class EnsureHarness:
                             emit('ret', aid, 'val', r)
                         except HarnessError as e:
                             emit('ret', aid, 'exc', e.args[0])
+                        except aio.CancelledError:
+                            emit('ret', aid, 'cancelled', aio.current_task().cancelling())
                         except RuntimeError as e:
                             emit('ret', aid, 'runtime', str(e)[:80])
                             if aio.iscoroutine(aw):
@@ -361,7 +368,7 @@ class C17(Check):
                     st['unreturned_at_stepbound'] += 1
                 continue
             kind, val = rr[1][2], rr[1][3]
-            exp = ('exc', aid) if spec['out'] == 'raise' else ('val', ('r', aid))
+            exp = ('exc', aid) if spec['out'] == 'raise' else ('cancelled', 0) if spec['out'] == 'cancel' else ('val', ('r', aid))
             if (kind, val) != exp:
                 res.violate(f'C17:wrong-outcome:{kind}', 'caller did not receive exactly the awaitable\'s result / exception',
                             aid=aid, got=(kind, val), expected=exp)
